@@ -82,6 +82,7 @@ type GlobalSpec struct{ Key, Name, Value string }
 // FlowSpec is one flow with its current definition as generic JSON.
 type FlowSpec struct {
 	UUID, Name, Type, Lang string
+	ParentFlavor           bool // written to be started from another flow: reads @parent a lot
 	Def                    J
 	Raw                    []byte // if set, the stored bytes (old-format corpus definitions)
 	Revision               int
